@@ -557,6 +557,23 @@ func c04Honoured(c *Ctx, bi bodyImpl, tname string, ms map[string]*ssa.Function)
 		}
 		return false
 	}
+	// the hidden block set, where the type has one: JustAttributes reports blocks ("not allowed here"),
+	// so it must not report the ones an earlier PartialContent consumed
+	var blockHidden *types.Var
+	for _, h := range bi.hidden {
+		if strings.Contains(strings.ToLower(h.Name()), "block") {
+			blockHidden = h
+		}
+	}
+	if blockHidden != nil {
+		saved := attrHidden
+		attrHidden = blockHidden
+		fn := ms["JustAttributes"]
+		ok := readsHidden(fn, 0, map[*ssa.Function]bool{})
+		c.Check(ok, "hidden.honoured", tname+".JustAttributes:reads["+blockHidden.Name()+"]", fn.Pos(), "hidden block set consulted",
+			"JustAttributes never consults "+blockHidden.Name()+": a block already consumed by an earlier PartialContent is reported as unexpected when the remaining body is read in attributes mode (gohcl's `remain` field of type hcl.Attributes does exactly that)")
+		attrHidden = saved
+	}
 	for _, name := range []string{"Content", "PartialContent", "JustAttributes"} {
 		fn := ms[name]
 		ok := readsHidden(fn, 0, map[*ssa.Function]bool{})
